@@ -83,6 +83,7 @@ func runC04(c *Ctx, tier string) {
 	batchValuesRetention(c, "C04-W3", opPkgs(c.P)...)
 	runScanBatchTypestate(c, "C04-B1")
 	runPeekerOwnership(c, "C04-B1")
+	runReadersNormaliseContainers(c, "C04-N1")
 }
 
 func init() {
